@@ -13,6 +13,7 @@ RULE = ("Hypothesis-generated two-sided histories: hazard-free background ops on
         "within 400 rounds and both roots equal modulo '.conflicted' names.  Non-trivial = >=2 user ops, both sides "
         "touched, >=1 engine step between two user ops, final trees non-empty; distinct = distinct trace digest.")
 ASSUMPTIONS = [
+    "part deldel: both users delete the same file, then (before any sync step) one of them renames a folder above it; drawn schedules in which the other side's delete event arrives late; expected tree exact (folder renamed, common delete kept)",
     "mock providers (id- and path-style, case-sensitive) stand in for real accounts",
     "hazards exclude by construction: PATH_REUSE, DIRMOVE_ISOLATED, DIRMOVE_TOMB, XSIDE; overlap only through pure gadgets",
     "gadget shapes that are open known findings are not generated for the affected flavours (see known_findings.json)",
@@ -37,7 +38,9 @@ def shapes_for(cfg):
 
 
 def budget(tier):
-    return {"workers": 16, "examples": 400 if tier == "quick" else 6000}
+    q = tier == "quick"
+    return [{"workers": 16, "examples": 400 if q else 6000},
+            {"part": "deldel", "workers": 16, "examples": 40 if q else 1500}]
 
 
 def gen(d, tier):
@@ -49,6 +52,10 @@ def gen(d, tier):
 
 
 def in_domain(trace):
+    us = [a for a in trace["acts"] if a[0] == "u"]
+    if any(a[3] == "/a/keep" for a in us):
+        return (sum(1 for a in us if a[2] == "delete") == 2 and sum(1 for a in us if a[2] == "rename") == 1 and
+                len(us) == 8 and trace["acts"][-1] == ["settle"] and sum(1 for a in trace["acts"] if a[0] == "settle") == 2)
     return envelope_ok(trace)
 
 
@@ -81,3 +88,73 @@ class Run(HistoryRun):
 
 def run(trace):
     return Run(trace).execute()
+
+
+# ----------------------------------------------------------------------------- part: both sides delete, then a parent moves
+# Both users delete the same file (nothing to fight about: it is gone on both sides); then, before the engine has done
+# any sync step, one of them renames a folder above it.  The merged outcome is well defined -- the folder under its
+# new name with its remaining children -- and the schedule decides how much the engine knows when: in particular the
+# other side's delete event may arrive long after the engine has worked on the renaming side's events.
+def gen_deldel(d, tier):
+    from ..gen import FLAVOURS
+    L, R = d.choice(FLAVOURS)
+    cfg = {"L": L, "R": R, "salt": d.int(0, 7)}
+    a = d.int(0, 1)                         # renames the folder
+    b = 1 - a
+    deep = d.bool()
+    victim = "/a/sub/f" if deep else "/a/f"
+    base = [["u", b, "mkdir", "/a"], ["u", b, "mkdir", "/a/sub"], ["u", b, "create", "/a/keep", "k0"],
+            ["u", b, "create", "/a/sub/deep", "d0"], ["u", b, "create", victim, "v0"], ["settle"]]
+    acts = list(base)
+    first = d.int(0, 1)
+    acts.append(["u", first, "delete", victim])
+    for _ in range(d.int(0, 2)):
+        acts.append(["step", d.choice(("EL", "ER"))])
+    acts.append(["u", 1 - first, "delete", victim])
+    for _ in range(d.int(0, 2)):
+        acts.append(["step", d.choice(("EL", "ER"))])
+    folder = d.choice(("/a", "/a/sub")) if deep else "/a"
+    acts.append(["u", a, "rename", folder, "/b" if folder == "/a" else "/a/sub2"])
+    starve = "ER" if a == 0 else "EL"       # the other side's intake
+    mine = "EL" if a == 0 else "ER"
+    for _ in range(d.int(0, 12)):
+        who = d.choice((mine, "S", "S", starve) if d.chance(1, 4) else (mine, "S", "S"))
+        acts.append(["step", who, 0.02] if d.bool() else ["step", who])
+    acts.append(["settle"])
+    return {"cfg": cfg, "acts": acts}
+
+
+class DelDelRun(Run):
+    def at_quiet(self, rounds, final):
+        super().at_quiet(rounds, final)
+        if not final:
+            return
+        from ..model import Tree
+        t = Tree()
+        seen = set()
+        for a in self.trace["acts"]:
+            if a[0] != "u":
+                continue
+            key = (a[2], a[3])
+            if a[2] == "delete" and key in seen:
+                continue                    # the second user's delete of the same file
+            seen.add(key)
+            t.apply(*a[2:])
+        e = O.equals_expected(self.case, t)
+        if e:
+            raise Stop(violation("converged", "[expected: folder renamed, common delete kept] " + e))
+
+
+def run_deldel(trace):
+    us = [a for a in trace["acts"] if a[0] == "u"]
+    if sum(1 for a in us if a[2] == "delete") != 2 or sum(1 for a in us if a[2] == "rename") != 1 or trace["acts"][-1] != ["settle"]:
+        from ..core import invalid
+        return invalid("not a delete/delete + parent rename scenario")
+    out = DelDelRun(trace).execute()
+    if out["status"] == "ok":
+        out["nontrivial"] = True
+        out["labels"] = ["deldel_then_parent_rename", "flavour:%s/%s" % (trace["cfg"]["L"], trace["cfg"]["R"])]
+    return out
+
+
+PARTS = {"deldel": (gen_deldel, run_deldel)}
